@@ -6,14 +6,14 @@ BASE = "cd /repo && /venv/bin/python -m pytest -ra -q -p no:cacheprovider --time
 
 # pid -> (technique, level text, level note (undecided residue / trusted base), design ref)
 CHECKS = {
- 'C06': ("string-template analysis: abstract interpretation of the read-code generators over the complete finite input space + per-language reader models (parse emitted text, compare fact sheets)",
-         "static analysis: the exact text of every program Darr can emit for Arrays (12 languages x 13 types x 2 byte orders x 1..3 (thorough: 1..4) dimensions x 3 path modes; extents and paths are opaque holes) is computed by interpreting the generators' AST; each program is parsed per language and checked for the path opened, read-only mode, type token, byte-order token, axis order, element count and well-formedness against the reader model; offered/withheld is compared with the two compatibility tables of docs/readcode.rst. The whole program space is covered; the tests look at none of it.",
+ 'C06': ('string-template analysis: abstract interpretation of the read-code generators over the complete finite input space + per-language reader models (parse emitted text, compare fact sheets)',
+         "static analysis: the exact text of every program Darr can emit for Arrays (12 languages x 13 types x 2 byte orders x 1..3 (thorough: 1..4) dimensions x 3 path modes; extents and paths are opaque holes) is computed by interpreting the generators' AST; each program is parsed per language and checked for the path opened, read-only mode, type token, byte-order token, axis order, element count and well-formedness against the reader model; offered/withheld is compared with the two compatibility tables of docs/readcode.rst. The whole program space is covered; the tests look at none of it. Also: the dispatcher takes type/shape/byte order from the re-read description (not from handle caches), no generator consults a property of the generating host, readcodelanguages consults the dispatcher on every call.",
          "trusted base: the reader models (tmpl/langs.py), i.e. my transcription of each language's documented binary-read semantics; the Python-family snippets are parsed, not executed. Behaviour of the foreign interpreters is not decided.",
-         "DESIGN.md section 4 C06"),
- 'C07': ("string-template analysis of the ragged composers (abstract interpretation with interception of the Array-generator calls) + accessor models (origin, inclusiveness, axis order, placeholders)",
-         "static analysis: every composed ragged program (9 languages x 13 value types x 7 index types x atom rank 0..3 x length classes x byte order x path mode) is computed exactly; sub-programs are checked with the C06 fact sheets for the index array (n, 2) and values array (N,)+atom; the accessor's start/end expressions, placeholder count/token/position, explicit empty branches, the example's k and assignment operator, withheld-iff-unreadable and well-formedness are checked against the language models.",
+         'DESIGN.md section 4 C06'),
+ 'C07': ('string-template analysis of the ragged composers (abstract interpretation with interception of the Array-generator calls) + accessor models (origin, inclusiveness, axis order, placeholders)',
+         "static analysis: every composed ragged program (9 languages x 13 value types x 7 index types x atom rank 0..3 x length classes x byte order x path mode) is computed exactly; sub-programs are checked with the C06 fact sheets for the index array (n, 2) and values array (N,)+atom; the accessor's start/end expressions, placeholder count/token/position, explicit empty branches, the example's k and assignment operator, withheld-iff-unreadable and well-formedness are checked against the language models. Also: constructors are effect-free (running the darr read code never changes a file); descriptor source and host independence as in C06.",
          "trusted base: reader/accessor models (tmpl/langs.py, tmpl/ragged.py). Not decided: foreign interpreter behaviour; numeric adequacy of R's 2^31-1 cut-off.",
-         "DESIGN.md section 4 C07"),
+         'DESIGN.md section 4 C07'),
  'C01': ('gate dominance + def-use/sibling rules over the creation path (AST/CFG/call graph); decision-table evaluation of the byte-order labelling',
          "static analysis of the disciplines creation depends on: supported-type gate dominates every reachable file-system effect; every written chunk is the first chunk or cast to its dtype; every chunk producer converts with the caller's dtype (sibling rule over all yields); length accounting pairs each write with the accumulator; descriptor fields come from the first chunk; the byte-order labelling is evaluated as an 8-cell decision table; fill defaults decided by `is None`.",
          'does not decide bit-pattern equality with the NumPy reference, chunklen-invariance or the fill-function index grid. Trusted: NumPy conversion semantics.',
@@ -26,8 +26,8 @@ CHECKS = {
          'static analysis: cast-and-check before write, seek-end before write, never-truncating open modes, by-path overwrite only when empty, committed count == written count, truncate guard decided on all weak orderings of (0, newlen, len), byte count monomial, cached shape/size/dtype assigned only in __init__ and the committer, recovery handler shape, no unguarded next().',
          'does not decide equality with the NumPy model over whole histories. Trusted: NumPy slicing/casting semantics by delegation.',
          'DESIGN.md section 4 C03'),
- 'C04': ('role-resolved def-use rules on the ragged append/indexing/truncate paths + R-FLOW of indextype + order-type enumeration of the shrink guard',
-         'static analysis: integer gate dominates the index read; values[slice(*indices[item])] with roles not swapped; index row built from running values length and item length; indextype validated and forwarded to every creation of the indices array; items converted with the array dtype on every path (byte order included); commits and top-level descriptor follow every append; truncate by NumPy slicing of the verbatim index with the guard decided on all order types.',
+ 'C04': ('role-resolved def-use rules on the ragged append/indexing/truncate paths + R-FLOW of indextype + order-type enumeration of the shrink guard; path-condition evaluation (CFG pruned by folded branch tests)',
+         'static analysis: integer gate dominates the index read; values[slice(*indices[item])] with roles not swapped; index row built from running values length and item length; indextype validated and forwarded to every creation of the indices array; items converted with the array dtype on every path (byte order included); commits and top-level descriptor follow every append; truncate by NumPy slicing of the verbatim index with the guard decided on all order types. Added: truncate guards and the __getitem__ type gate are decided by path conditions (per kind of index: int/NumPy integer accepted, bool/float/slice/str rejected); the values truncation is skipped when only empty subarrays go.',
          'does not decide subarray contents for all k and histories; out-of-range index behaviour is delegated to NumPy.',
          'DESIGN.md section 4 C04'),
  'C05': ('role-resolved R-FLOW / R-POST / R-ORDER rules over the ragged operations + key-set sibling agreement',
@@ -35,57 +35,57 @@ CHECKS = {
          'does not decide the inductive index-row invariant as a fact about file contents.',
          'DESIGN.md section 4 C05'),
  'C08': ('must-follow of README regeneration after every README-relevant state change (CFG), call-graph-derived dependency of the README on descriptor keys, stale-map / stale-handle typestate, registry agreement',
-         'static analysis: committer, asarray and every ragged mutator regenerate the README after their last relevant state change on all normal paths; the ragged README is not generated inside an open sub-array context after a commit nor through a handle whose sub-array was replaced; README language lists equal the registry key sets and use the same dispatcher; metadata callbacks follow every unlink/creating write; wording thresholds equal listing thresholds.',
+         'static analysis: committer, asarray and every ragged mutator regenerate the README after their last relevant state change on all normal paths; the ragged README is not generated inside an open sub-array context after a commit nor through a handle whose sub-array was replaced; README language lists equal the registry key sets and use the same dispatcher; metadata callbacks follow every unlink/creating write; wording thresholds equal listing thresholds. Also: the metadata callback is stored by strong reference.',
          'does not decide byte equality of README with a regenerated text.',
          'DESIGN.md section 4 C08'),
  'C09': ('R-RECOVER: lexical try/handler analysis + property-inlined monomial normal form of the recovery truncation + accumulator def-use',
-         'static analysis: every data write of iterappend lies in a try whose catch-all handler commits completed chunks, cuts the file to committed element count x item size after the commit and re-raises; accumulator only adds appender returns; checker compares whole trailing shapes without zip truncation or rank promotion and converts on every path; iterable consumption is protected.',
+         'static analysis: every data write of iterappend lies in a try whose catch-all handler commits completed chunks, cuts the file to committed element count x item size after the commit and re-raises; accumulator only adds appender returns; checker compares whole trailing shapes without zip truncation or rank promotion and converts on every path; iterable consumption is protected. Also: the committer called by the handler before the file is cut back contains no explicit raise.',
          'does not decide behaviour under real kernel write failures at byte offsets, nor whether the handler itself can complete under the same fault.',
          'DESIGN.md section 4 C09'),
  'C10': ('R-RECOVER over the ragged append sites + validate-before-first-write ordering rules',
-         'static analysis: the three ragged write sites are checked for a recovering handler (absent on this code base: three known findings, one per construct); decided in addition: values write precedes index-row write, item length taken from the raw item before the first write, index row shape, counters increased after both writes, checker rules shared with C09.',
+         'static analysis: the three ragged write sites are checked for a recovering handler (absent on this code base: three known findings, one per construct); decided in addition: values write precedes index-row write, item length taken from the raw item before the first write, index row shape, counters increased after both writes, checker rules shared with C09. A handler that exists but is wrong (values file cut to rows x itemsize without the atom factor, one file only) is a different construct than the known no-handler findings and is reported.',
          'known findings: no recovery path exists for ragged appends (design-level gap). Does not decide actual failure offsets or index overflow of small index types.',
          'DESIGN.md section 4 C10'),
- 'C14': ('taint analysis (copies under held context) + verbatim R-FLOW + order-type enumeration / constant folding of the validation tests',
-         'static analysis of the decided clauses only: iterchunks yields copies of map[framestart:frameend] inside the held context; five frame parameters forwarded verbatim; totallen = endindex - startindex; defaults substituted exactly when None; partial-frame guard depends on the covered length; iterindices raises exactly when not (0 <= start < end <= n) on all weak orderings; fit_frames validation folded over sample values and preceding every return.',
-         'NOT decided: the frame arithmetic itself (count of full frames, remainder value) — the core of the property; an off-by-one inside fit_frames is invisible to this check.',
+ 'C14': ('taint analysis (copies under held context) + verbatim R-FLOW + order-type enumeration / constant folding of the validation tests; induction over polynomial normal forms for the frame recurrence (darrlint/poly.py)',
+         'static analysis of the decided clauses only: iterchunks yields copies of map[framestart:frameend] inside the held context; five frame parameters forwarded verbatim; totallen = endindex - startindex; defaults substituted exactly when None; partial-frame guard depends on the covered length; iterindices raises exactly when not (0 <= start < end <= n) on all weak orderings; fit_frames validation folded over sample values and preceding every return. Added D5: the k-th frame is (start + k*step, start + k*step + chunklen) for k < nframes and the partial frame is (start + nframes*step, end); fit_frames returns (n, n*step + chunklen - step, total - covered) with n = floor((total - chunklen)/step) + 1 up to polynomial rewriting; range validation decided on all 44 order types by path conditions.',
+         'Decided only up to polynomial / floor-division rewriting: a frame count written with other operations (e.g. max()), boundary operators of the remainder condition and float arguments are NOT decided.',
          'DESIGN.md section 4 C14'),
  'C15': ('verbatim R-FLOW of copy parameters + sibling rule over chunk producers + empty-source belief rules + gate dominance of same-path rejection + archive rules',
-         'static analysis: copy() forwards path/dtype/chunklen/accessmode/overwrite and a fresh metadata dict; the Array branch of the chunk generator applies dtype and handles length 0; ragged copy iterates range(len(self)) and creates an empty copy for an empty source; asraggedarray validates the first item before the first effect; same-path rejection precedes every effect; archive validated/exclusive/whole-directory.',
+         'static analysis: copy() forwards path/dtype/chunklen/accessmode/overwrite and a fresh metadata dict; the Array branch of the chunk generator applies dtype and handles length 0; ragged copy iterates range(len(self)) and creates an empty copy for an empty source; asraggedarray validates the first item before the first effect; same-path rejection precedes every effect; archive validated/exclusive/whole-directory. Also: the dtype default precedes both creation calls of RaggedArray.copy; a copy without metadata does not inherit a stale metadata.json.',
          'does not decide value equality of copies, byte-identical tar extraction, or independence as an observed fact.',
          'DESIGN.md section 4 C15'),
  'C19': ('R-SHARE ownership-shape analysis of the shared memmap cache + R-ESC taint + R-PAIR release pairing',
          'static analysis: borrower path x unguarded release x suspending holders is the hazard; discharged by a recognised user-count guard, absence of a borrower path or absence of suspending holders (present on this code base: one known finding); no raw view escapes any holder; release on every exit; holders do not pin a mode of their own.',
          'known finding: unconditional release with borrowers (SIGSEGV schedule). Does not decide coherence of values under interleaved writes or absence of crashes per schedule.',
          'DESIGN.md section 4 C19'),
- 'C12': ("def-use identity + escape/taint analysis over `with` blocks + acquire/release pairing (AST/CFG)",
-         "static analysis: the index/value reach NumPy unmodified (def-use identity in __getitem__/__setitem__); a taint analysis over every with-block on a map-yielding context manager shows no view of the memory map leaves its context except through a copy; the opener's finally closes map and file and resets the cache on every exit; memmap-only attributes are guarded; the write gate dominates the store; the public contexts forward the mode verbatim. Every block and exit of the package is covered, not a sample of index expressions.",
+ 'C12': ('def-use identity + escape/taint analysis over `with` blocks + acquire/release pairing (AST/CFG)',
+         "static analysis: the index/value reach NumPy unmodified (def-use identity in __getitem__/__setitem__); a taint analysis over every with-block on a map-yielding context manager shows no view of the memory map leaves its context except through a copy; the opener's finally closes map and file and resets the cache on every exit; memmap-only attributes are guarded; the write gate dominates the store; the public contexts forward the mode verbatim. Every block and exit of the package is covered, not a sample of index expressions. Also: with handle mode r and a writeable map the gate lets the store through (documented per-context override).",
          "decides the copy/release/delegation discipline, not NumPy's indexing semantics, msync durability or descriptor leaks under interleavings (C19). Trusted: the view/copy classification table of NumPy operations.",
-         "DESIGN.md section 4 C12"),
- 'C13': ("sibling agreement + constant-folded guard profiles + CFG edge-avoidance reachability + unlink-belief rule",
-         "static analysis: every write of metadata.json is guarded by tests that constant-fold to 'dictionary non-empty' and by nothing else (every path that skips the write takes the 'empty' edge); unlink is locally guarded or dominated by an operation proving non-emptiness; no cache; accessors reach the reader; json.dumps precedes the truncating open; verbatim argument forwarding; encoder branches.",
-         "decides the persistence discipline, not JSON round-trip equality of values. Trusted: dict.pop/popitem KeyError semantics, json module semantics.",
-         "DESIGN.md section 4 C13"),
- 'C16': ("who-may-touch over the primitive-effect table with symbolic path roles + overwrite-gate dominance (CFG, call graph)",
-         "static analysis: the complete list of unlink/rmdir/rmtree/rename/copytree sites of the package is classified by the symbolic role of the target path against a closed set of owners; listing-driven deletion, swallowed deletion failures, effects before the non-array refusal, creators' effects not dominated by an overwrite gate, non-verbatim overwrite forwarding and non-exclusive archive creation are each decided for all paths.",
+         'DESIGN.md section 4 C12'),
+ 'C13': ('sibling agreement + constant-folded guard profiles + CFG edge-avoidance reachability + unlink-belief rule',
+         "static analysis: every write of metadata.json is guarded by tests that constant-fold to 'dictionary non-empty' and by nothing else (every path that skips the write takes the 'empty' edge); unlink is locally guarded or dominated by an operation proving non-emptiness; no cache; accessors reach the reader; json.dumps precedes the truncating open; verbatim argument forwarding; encoder branches. Also: creators remove a stale metadata.json for metadata None or {}; writer/reader encoding agreement (ASCII-only JSON on every route, or equal encodings).",
+         'decides the persistence discipline, not JSON round-trip equality of values. Trusted: dict.pop/popitem KeyError semantics, json module semantics.',
+         'DESIGN.md section 4 C13'),
+ 'C16': ('who-may-touch over the primitive-effect table with symbolic path roles + overwrite-gate dominance (CFG, call graph); path-condition evaluation of archive validation / tar mode / is_dir guards',
+         "static analysis: the complete list of unlink/rmdir/rmtree/rename/copytree sites of the package is classified by the symbolic role of the target path against a closed set of owners; listing-driven deletion, swallowed deletion failures, effects before the non-array refusal, creators' effects not dominated by an overwrite gate, non-verbatim overwrite forwarding and non-exclusive archive creation are each decided for all paths. Added: every unlink/rmdir of the public delete functions is preceded by a call that opens (validates) the array on disk; tar mode decided by path conditions under overwrite=False.",
          "decides ownership and gate discipline, not byte-identity snapshots or OS behaviour on exotic directory entries. Trusted: primitive-effect table; Path.rmdir refuses non-empty directories; tarfile 'x:' is exclusive.",
-         "DESIGN.md section 4 C16"),
- 'C17': ("ordering / strictness / ownership rules over CFGs and def-use (must-precede, who-may-write the data file, count provenance)",
-         "static analysis of the facts that make every in-between on-disk state rejected at open or legitimate: strict, exact, unavoidable size check before the first map; closed set of data-file writers/resizers; committed counts derived from appender returns; ragged two-file commit order; whole-file rewrites of pre-serialised text; readers never default on an unparsable file.",
-         "decides orderings and strictness only; crash points are not enumerated and torn writes are not synthesised. Trusted: a torn JSON write is unparsable.",
-         "DESIGN.md section 4 C17"),
- 'C18': ("validator-dominance (interprocedural gate analysis per descriptor field) + single-reader who-may-read + size-check strictness",
-         "static analysis: for each field class of the descriptor a raising test on the stored field itself lies on every normal path through the (role-inferred) descriptor reader; no handler swallows open/parse errors; the reader is the single consumer; the size check is strict, exact, unavoidable and precedes the first map; delete/truncate by path refuse before any effect; darr.open rejects unknown kinds.",
-         "decides presence/placement/strictness of validators, not completeness over every corruption (negative or boolean extents are left to the size check).",
-         "DESIGN.md section 4 C18"),
- 'C20': ("complete-mediation analysis (guard dominance + def-use identity of the checked and used name) + constant-folded mode classification + normalisation symmetry",
-         "static analysis: every public DataDir mutator guards each name it touches, with the same value, on all paths before the use (checking loop completes before list deletion); the guard compares symmetrically normalised paths with containment; its mode condition is constant-folded over all write-capable open modes; private writers keep overwrite gates and are only called with Darr's constant names; the protected set contains every file-name constant.",
-         "decides mediation and name-equivalence shape, not round-trip equality of user files or spellings that need the OS to resolve differently (case-insensitive file systems).",
-         "DESIGN.md section 4 C20"),
- 'C11': ("gate-dominance over call graph + statement CFGs (AST), def-use of the mode into handles",
-         "static analysis: every public mutating entry point of Array/RaggedArray/MetaData is computed from the resolved call graph; for every reachable file-system effect the CFGs along the call chain are searched for a gate-free path; the writeable-flag gate's soundness, mode propagation to sub-handles, constant 'r+' overrides and defaults are decided as separate obligations. All paths of all entry points are covered, which the five sampled cells of the test matrix cannot give.",
+         'DESIGN.md section 4 C16'),
+ 'C17': ('ordering / strictness / ownership rules over CFGs and def-use (must-precede, who-may-write the data file, count provenance)',
+         'static analysis of the facts that make every in-between on-disk state rejected at open or legitimate: strict, exact, unavoidable size check before the first map; closed set of data-file writers/resizers; committed counts derived from appender returns; ragged two-file commit order; whole-file rewrites of pre-serialised text; readers never default on an unparsable file.',
+         'decides orderings and strictness only; crash points are not enumerated and torn writes are not synthesised. Trusted: a torn JSON write is unparsable.',
+         'DESIGN.md section 4 C17'),
+ 'C18': ('validator-dominance (interprocedural gate analysis per descriptor field) + single-reader who-may-read + size-check strictness',
+         'static analysis: for each field class of the descriptor a raising test on the stored field itself lies on every normal path through the (role-inferred) descriptor reader; no handler swallows open/parse errors; the reader is the single consumer; the size check is strict, exact, unavoidable and precedes the first map; delete/truncate by path refuse before any effect; darr.open rejects unknown kinds.',
+         'decides presence/placement/strictness of validators, not completeness over every corruption (negative or boolean extents are left to the size check).',
+         'DESIGN.md section 4 C18'),
+ 'C20': ('complete-mediation analysis (guard dominance + def-use identity of the checked and used name) + constant-folded mode classification + normalisation symmetry',
+         "static analysis: every public DataDir mutator guards each name it touches, with the same value, on all paths before the use (checking loop completes before list deletion); the guard compares symmetrically normalised paths with containment; its mode condition is constant-folded over all write-capable open modes; private writers keep overwrite gates and are only called with Darr's constant names; the protected set contains every file-name constant. Also: a list-taking method never modifies inside the loop that checks (all-or-nothing); purely lexical normalisation (normpath/abspath) is rejected; text/JSON readers decode with the writer's encoding.",
+         'decides mediation and name-equivalence shape, not round-trip equality of user files or spellings that need the OS to resolve differently (case-insensitive file systems).',
+         'DESIGN.md section 4 C20'),
+ 'C11': ('gate-dominance over call graph + statement CFGs (AST), def-use of the mode into handles; semantic gate pruning (mode tests folded with r); strict mode-gate analysis for by-path effects',
+         "static analysis: every public mutating entry point of Array/RaggedArray/MetaData is computed from the resolved call graph; for every reachable file-system effect the CFGs along the call chain are searched for a gate-free path; the writeable-flag gate's soundness, mode propagation to sub-handles, constant 'r+' overrides and defaults are decided as separate obligations. All paths of all entry points are covered, which the five sampled cells of the test matrix cannot give. Added D7: by-path mutations need a test of the handle's own mode because the writeable flag of a map borrowed from a suspended generator/context may predate a mode switch (one open known finding for element assignment); D5: release pairing and current-mode default of the opener.",
          "decides the gate discipline, not behaviour: byte-identity of the directory after a rejected call and success after switching to 'r+' are not decided. Trusted: primitive-effect table; that writes through handles opened with the handle's mode are refused by the OS/NumPy.",
-         "DESIGN.md section 4 C11"),
+         'DESIGN.md section 4 C11'),
 }
 NOT_BUILT = "check not built yet (see DESIGN.md section 9 for the order of work)"
 
@@ -115,7 +115,7 @@ def main():
                   "kind_free_text": "repo-specific static analysis under /venv/bin/python (stdlib ast only): source model, receiver-type fixpoint and call resolution, statement CFG with reachability-under-avoidance, primitive-effect/file-role table, rule kinds R-DOM/R-POST/R-ORDER/R-OWN/R-RECOVER/R-ESC/R-PAIR/R-SHARE/R-SIB/R-FLOW/R-TABLE/R-BELIEF, string-template abstract interpretation of the read-code generators with per-language reader models"}],
      "checks": checks,
      "not_applicable": na,
-     "notes": "All checks are level 'other': N obligations over M sites discharged by static rules; each property is claimed clause-wise (DESIGN.md section 4 lists decided / not decided per property). Exit 0 ok, 1 VIOLATION, 2 ANALYSIS-ERROR (anchor vanished / floor not met). known_findings.json lists genuine defects (open or fixed).",
+     "notes": "Second opinion: when a run has a violated obligation the property is analysed again on the helper-inlined equivalent form (DESIGN.md 10.3). All checks are level 'other': N obligations over M sites discharged by static rules; each property is claimed clause-wise (DESIGN.md section 4 lists decided / not decided per property). Exit 0 ok, 1 VIOLATION, 2 ANALYSIS-ERROR (anchor vanished / floor not met). known_findings.json lists genuine defects (open or fixed).",
     }
     with open(os.path.join(HERE, 'MANIFEST.json'), 'w') as fh:
         json.dump(m, fh, indent=1)
